@@ -37,6 +37,7 @@ class PS:
         self.pid, self.gid, self.kind, self.name = pid, gid, kind, name
         self.q, self.ssize, self.esize = q, ssize, esize
         self.seeds, self.toy, self.curve, self.pqg = seeds, toy, curve, pqg
+        self.base = None   # name of the parameter set this one is a one-seed variant of
 
 
 class World:
@@ -63,10 +64,11 @@ class World:
                 self.ps[name] = self.mkps(pid, self.groups[name], "ed" if name == "ed" else "int", name)
                 pid += 1
         if "custom" in want:
-            for name, seeds in (("ed", (b"M2", b"N", b"symmetric")), ("ed", (b"M", b"N2", b"sym2")), ("1024", (b"", b"\x00", b"x" * 70))):
+            for name, seeds, key, base in (("ed", (b"M2", b"N", b"symmetric"), "ed/altM", "ed"), ("ed", (b"M", b"N2", b"symmetric"), "ed/altN", "ed"),
+                                           ("ed", (b"M", b"N", b"sym2"), "ed/altS", "ed"), ("1024", (b"", b"\x00", b"x" * 70), "1024/custom", None)):
                 self.pre("params %d %d %s %s %s" % (pid, self.groups[name], hx(seeds[0]), hx(seeds[1]), hx(seeds[2])))
-                key = "%s/custom%d" % (name, pid)
                 self.ps[key] = self.mkps(pid, self.groups[name], "ed" if name == "ed" else "int", key, seeds=seeds)
+                self.ps[key].base = base
                 pid += 1
         if "edgen" in want:
             self.pre("group %d ed" % gid)
@@ -81,16 +83,28 @@ class World:
                 name = "toy%d_%d_%d" % (p, q, g)
                 if out == "ok":
                     self.groups[name] = gid
-                    for seeds in ((b"M", b"N", b"symmetric"), (b"m1", b"n1", b"s1"), (b"a", b"b", b"c")):
+                    main = None
+                    for seeds in ((b"M", b"N", b"symmetric"), (b"m1", b"n1", b"s1"), (b"a", b"b", b"c"), (b"m2", b"n2", b"s2")):
                         o = self.pre("params %d %d %s %s %s" % (pid, gid, hx(seeds[0]), hx(seeds[1]), hx(seeds[2])))
+                        pid += 1
                         if o == "ok":
                             try:
-                                self.ps[name] = self.mkps(pid, gid, "int", name, seeds=seeds, toy=True, pqg=(p, q, g))
-                                pid += 1
+                                self.ps[name] = main = self.mkps(pid - 1, gid, "int", name, seeds=seeds, toy=True, pqg=(p, q, g))
                                 break
                             except Exception as e:  # arbitrary_element(b"") may fail on toy groups (K3)
                                 self.notes.append("%s: %s" % (name, e))
-                        pid += 1
+                    if main is not None:
+                        # same group, one blinding seed changed (for C02 / C09)
+                        for which in (0, 1, 2):
+                            for alt in (b"x1", b"x2", b"x3", b"x4"):
+                                seeds = list(main.seeds)
+                                seeds[which] = alt
+                                o = self.pre("params %d %d %s %s %s" % (pid, gid, hx(seeds[0]), hx(seeds[1]), hx(seeds[2])))
+                                pid += 1
+                                if o == "ok":
+                                    self.ps["%s/alt%s" % (name, "MNS"[which])] = self.mkps(pid - 1, gid, "int", name + "/alt" + "MNS"[which], seeds=tuple(seeds), toy=True, pqg=(p, q, g))
+                                    self.ps["%s/alt%s" % (name, "MNS"[which])].base = name
+                                    break
                 gid += 1
         if "toyed" in want:
             for (Q, d, L) in refmath.TOY_CURVES[:2]:
